@@ -1,6 +1,7 @@
 package main
 
 import (
+	"sort"
 	"fmt"
 	"go/token"
 	"go/types"
@@ -250,6 +251,9 @@ func (c *FnCtx) callWithContract(fr *Frame, st *State, fn *ssa.Function, spec *F
 		o := c.obligation(st, "call", fmt.Sprintf("%s.pre.%s", shortFn(name), clauseName(r, k)), g, pos)
 		o.Desc = "precondition of " + name + ": " + r.Text
 		o.OwnerProps = spec.Props
+		if cp, ok := spec.ClauseProps[r.Label]; ok && r.Label != "" {
+			o.OwnerProps = cp // a precondition tagged [name@Cxx] is an obligation of those properties only
+		}
 		c.assume(st, g)
 	}
 	if spec.Trusted {
@@ -258,6 +262,24 @@ func (c *FnCtx) callWithContract(fr *Frame, st *State, fn *ssa.Function, spec *F
 	m := newModSet()
 	c.funcMods(fn, m, 0)
 	c.havocSet(st, m, "call$"+fn.Name())
+	if om := c.objMods(fn, spec, args); om != nil {
+		// object-level modifies: in these components only the named objects may have changed
+		var comps []string
+		for comp := range om {
+			comps = append(comps, comp)
+		}
+		sort.Strings(comps)
+		for _, comp := range comps {
+			if _, ok := c.eng.comps[comp]; !ok {
+				continue
+			}
+			h0, h1 := c.heapGet(pre, comp), c.heapGet(st, comp)
+			if h0 == h1 {
+				continue
+			}
+			c.sc.Assume(fmt.Sprintf("(forall ((r Int)) (! (=> %s (= (select %s r) (select %s r))) :pattern ((select %s r))))", exceptObjs("r", om[comp]), h1, h0, h1))
+		}
+	}
 	var vs []Val
 	for k := 0; k < resT.Len(); k++ {
 		vs = append(vs, c.fresh("ret$"+fn.Name(), resT.At(k).Type(), st))
@@ -353,7 +375,12 @@ func (c *FnCtx) pureArgs(st *State, args []Val) []Val {
 	for k, a := range args {
 		out[k] = a
 		if isProtoMessageIface(a.T) && st != nil {
-			out[k] = Val{T: a.T, E: c.sc.Define("msgarg", sIface, "(mk-iface (i-tag "+a.E+") "+c.msgVal(st, "(i-val "+a.E+")")+")")}
+			t := "(mk-iface (i-tag " + a.E + ") " + c.msgVal(st, "(i-val "+a.E+")") + ")"
+			if strings.Contains(a.E, "q$") {
+				out[k] = Val{T: a.T, E: t} // mentions a bound variable of a quantified spec expression: no definition
+			} else {
+				out[k] = Val{T: a.T, E: c.sc.Define("msgarg", sIface, t)}
+			}
 		}
 	}
 	return out
@@ -623,4 +650,108 @@ func shortIfaceName(t types.Type) string {
 		return n.Obj().Name()
 	}
 	return shortTypeName(t)
+}
+
+// objMods: `modifies p.f` where p is a contract parameter (or recv) of pointer-to-struct type names field f of that one
+// object.  Returns component -> terms of the objects that may be written, for components that the contract names ONLY
+// in this object-level form (a component also named by a type-level pattern stays component-level).
+func (c *FnCtx) objMods(fn *ssa.Function, spec *FuncSpec, args []Val) map[string][]string {
+	if spec == nil || !spec.HasMod {
+		return nil
+	}
+	idx := map[string]int{}
+	off := 0
+	if fn.Signature.Recv() != nil && len(fn.Params) > 0 {
+		idx["recv"] = 0
+		off = 1
+	}
+	for k, n := range spec.Params {
+		idx[n] = off + k
+	}
+	out := map[string][]string{}
+	var rest []string
+	for _, p := range spec.Modifies {
+		p = strings.TrimSpace(p)
+		d := strings.Index(p, ".")
+		if d < 0 || strings.Contains(p, "$") {
+			rest = append(rest, p)
+			continue
+		}
+		k, ok := idx[p[:d]]
+		if !ok || k >= len(fn.Params) || k >= len(args) {
+			rest = append(rest, p)
+			continue
+		}
+		pt, ok := fn.Params[k].Type().Underlying().(*types.Pointer)
+		if !ok {
+			rest = append(rest, p)
+			continue
+		}
+		st, ok := pt.Elem().Underlying().(*types.Struct)
+		if !ok {
+			rest = append(rest, p)
+			continue
+		}
+		found := false
+		for f := 0; f < st.NumFields(); f++ {
+			if st.Field(f).Name() == p[d+1:] && !isStructVal(st.Field(f).Type()) {
+				comp := fieldComp(pt.Elem(), f)
+				out[comp] = append(out[comp], args[k].E)
+				found = true
+			}
+		}
+		if !found {
+			rest = append(rest, p)
+		}
+	}
+	if len(out) == 0 {
+		return nil
+	}
+	typeLevel := c.eng.patternMods(c, rest)
+	for comp := range out {
+		if typeLevel.all || typeLevel.comps[comp] {
+			delete(out, comp)
+		}
+	}
+	return out
+}
+
+// exceptObjs: (and (not (= r o1)) (not (= r o2)) ...)
+func exceptObjs(r string, objs []string) string {
+	var cs []string
+	for _, o := range objs {
+		cs = append(cs, "(not (= "+r+" "+o+"))")
+	}
+	return And(cs...)
+}
+
+// specModPatterns: the contract's modifies patterns with object-level entries (`p.f`, p a parameter) rewritten to the
+// type-level pattern `T.f` they refine; used wherever only the set of components matters.
+func (c *FnCtx) specModPatterns(fn *ssa.Function, spec *FuncSpec) []string {
+	idx := map[string]int{}
+	off := 0
+	if fn.Signature.Recv() != nil && len(fn.Params) > 0 {
+		idx["recv"] = 0
+		off = 1
+	}
+	for k, n := range spec.Params {
+		idx[n] = off + k
+	}
+	var out []string
+	for _, p := range spec.Modifies {
+		p = strings.TrimSpace(p)
+		d := strings.Index(p, ".")
+		if d > 0 && !strings.Contains(p, "$") {
+			if k, ok := idx[p[:d]]; ok && k < len(fn.Params) {
+				if pt, ok := fn.Params[k].Type().Underlying().(*types.Pointer); ok {
+					if n, ok := pt.Elem().(*types.Named); ok {
+						out = append(out, n.Obj().Name()+p[d:])
+						continue
+					}
+				}
+			}
+		}
+		out = append(out, p)
+	}
+	return out
 }
